@@ -40,14 +40,30 @@ CHECKS = {
                 text='For a base set of well-formed headers every one of the 255 substitutions at every header byte, every truncation and length-field perturbation is parsed; whenever the independent rules condemn the mutant the library must return no header and iteration must end.',
                 note='One-directional and only for the listed rules; base set is a sample of header shapes.',
                 design='4/C12'),
+    'C13': dict(level='exploration', technique='bounded-progress monitor: stream-callback step counter with deterministic budgets and hard stop, allocator monitor for peak live heap, CPU/wall watchdogs for stdio-backed streams and the CLI',
+                text='Liveness is restated as bounded progress: every operation must finish within 2*len(A)+64*(members+1)+4*bytes_out+256 stream callbacks, deliver no more than the declared length, and keep peak library heap below 8 MiB + 2*len(A); checked on every truncation offset of generated archives, extreme length declarations, inputs around the 256 KiB scan limit, self-referential and pm1-endless streams, over 4 stream kinds x 4 operations and the CLI over files and pipes.',
+                note='No finite run decides "eventually returns"; FILE-backed kinds and the CLI are guarded by watchdogs only. A watchdog firing is re-run once before it is reported.',
+                design='4/C13'),
     'C14': dict(level='exploration', technique='runtime monitor of the decoder API contract: split-invariance against a single maximal read, independent bitwise CRC, progress-callback sequence checker; exhaustive read compositions for short outputs',
                 text='For every (method, stream, declared length) the bytes, reported length/CRC and callback sequence under many read schedules (all 2^(n-1) compositions for short outputs) are compared with one maximal read and an independent CRC.',
                 note='Input callback delivers full requests while data remains. Schedules sampled for long outputs.',
                 design='4/C14'),
+    'C15': dict(level='exploration', technique='history checker against an executable sequential model of the reader (exhaustive legal op sequences to a depth bound), two-reader interleaving enumeration, ThreadSanitizer rounds with per-thread result equality',
+                text='All legal operation sequences up to depth 5 (quick) / 7 (thorough) over three fixed archives x three directory policies plus random histories on generated archives are stepped beside a model of the documented reader behaviour (fake directories, deferred symlinks, sticky end); all interleavings of two short histories on two readers and 8 threads x N rounds under TSan must reproduce each reader\'s solo log.',
+                note='TSan sees only instrumented code: reports whose racing access lies inside libc (mktime/tzset internal lock) are counted and ignored. Depth-bounded.',
+                design='4/C15'),
+    'C16': dict(level='exploration', technique='differential monitor across four input-stream kinds and generated self-extractor prefixes (exhaustive small lengths, window multiples, scan limit, marker+decoy forms), CLI file vs stdin comparison',
+                text='The member list (all header fields, data, verdicts, and a list-only walk) from callbacks-with-skip on the bare archive is the reference; every other stream kind and every prefix class must reproduce it, for corpus, generated and truncated archives.',
+                note='Prefix bytes come from a subset that cannot form a signature across the junction. Real pipes with a writer thread.',
+                design='4/C16'),
     'C17': dict(level='exploration', technique='runtime differential monitor: library routine vs bitwise CRC-16/ARC definition, exhaustive enumeration of (state,byte) and (state,2 bytes), ASan on random buffers/splits',
                 text='Every (16-bit state, byte) pair is executed through lha_crc16_buf and compared with the bitwise definition (exhaustive, 2^24); thorough also runs all 2^32 (state, two-byte) inputs whole and split. Because CRC is a byte-wise state machine, agreement on every single step plus split-invariance on sampled buffers is the strongest observation a run can make of this routine.',
                 note='Trusts the 8-line bitwise reference (cross-checked in C and Python against the published check value 0xBB3D). Buffers longer than 2 bytes are sampled, not enumerated.',
                 design='4/C17'),
+    'C20': dict(level='fault_enumeration', technique='allocator monitor (link-time wrap) with exhaustive fail-the-k-th-allocation enumeration, descriptor balance, ASan; histories truncated at every prefix',
+                text='For every (archive, call history) the fault-free run counts the N allocations made by library code and the run is repeated N times with the k-th allocation failing; after reader and stream are freed no library block or descriptor may remain and the call struck by the failure must report failure/end of archive.',
+                note='Only allocations made by lhasa code are injected/monitored; libc-internal ones are covered by descriptor balance and ASan.',
+                design='4/C20'),
 }
 
 PENDING_REASON = 'check not built yet at this commit (work in progress; see DESIGN.md section 4 for the planned monitor)'
